@@ -109,9 +109,10 @@ def spy_classes():
             return None if self.cur is None else self.cur[0]
 
         def move_cursor_to_coords(self, size, col, row):
-            self.ctx.log.append(("move", self.lid, tuple(size), col, row))
             nrows = self.nrows(size)
-            if not self._selectable or not isinstance(row, int) or not (0 <= row < nrows) or row in self.rej:
+            ok = bool(self._selectable and isinstance(row, int) and 0 <= row < nrows and row not in self.rej)
+            self.ctx.log.append(("move", self.lid, tuple(size), col, row, ok))
+            if not ok:
                 return False
             if col == "left":
                 x = 0
@@ -123,7 +124,38 @@ def spy_classes():
             self._invalidate()
             return True
 
-    _CLS.update(SpyBase=SpyBase, Spy=Spy)
+    def logged(base, off):
+        """A real urwid leaf whose text is made of its marker; geometry calls are recorded, then performed."""
+        class Real(base):
+            box = False
+            minw = 1
+            real = True
+            text_off = off          # columns between the widget's left edge and the first marker character
+
+            def init_spy(self, ctx, lid):
+                self.ctx, self.lid = ctx, lid
+                return self
+
+            def nrows(self, size):
+                return self.rows(size)
+
+            def render(self, size, focus=False):
+                self.ctx.log.append(("render", self.lid, tuple(size), bool(focus)))
+                return super().render(size, focus)
+
+            def mouse_event(self, size, event, button, col, row, focus):
+                self.ctx.log.append(("mouse", self.lid, tuple(size), col, row, bool(focus)))
+                return super().mouse_event(size, event, button, col, row, focus)
+        if base is urwid.Edit:
+            def move_cursor_to_coords(self, size, col, row):
+                r = base.move_cursor_to_coords(self, size, col, row)
+                self.ctx.log.append(("move", self.lid, tuple(size), col, row, bool(r)))
+                return r
+            Real.move_cursor_to_coords = move_cursor_to_coords
+        return Real
+
+    _CLS.update(SpyBase=SpyBase, Spy=Spy, REdit=logged(urwid.Edit, 0), RIcon=logged(urwid.SelectableIcon, 0),
+                RButton=logged(urwid.Button, 2), RCheckBox=logged(urwid.CheckBox, 4))
     return _CLS
 
 
@@ -243,24 +275,21 @@ def build1(node, ctx, mode):
             kw.update(bline="", blcorner="", brcorner="")
         return urwid.LineBox(sub(ch), **kw)
     # ---- real widgets (oracle only) ----
-    if k == "edit":
-        _, lid, caption, text, pos, multiline = node
-        w = urwid.Edit(caption, text, multiline=bool(multiline))
-        w.set_edit_pos(pos)
-        ctx.real[lid] = (k, w)
-        return w
-    if k == "icon":
-        _, lid, text, cpos = node
-        w = urwid.SelectableIcon(text, cpos)
-        ctx.real[lid] = (k, w)
-        return w
-    if k == "button":
-        w = urwid.Button(node[2])
-        ctx.real[node[1]] = (k, w)
-        return w
-    if k == "checkbox":
-        w = urwid.CheckBox(node[2])
-        ctx.real[node[1]] = (k, w)
+    if k in REAL_LEAVES:
+        lid, n = node[1], node[2]
+        C = spy_classes()
+        text = mark(lid) * n
+        if k == "edit":
+            w = C["REdit"]("", text)
+            w.set_edit_pos(node[3])
+        elif k == "icon":
+            w = C["RIcon"](text, node[3])
+        elif k == "button":
+            w = C["RButton"](text)
+        else:
+            w = C["RCheckBox"](text)
+        w.init_spy(ctx, lid)
+        ctx.leaves[lid] = w
         return w
     if k == "gridflow":
         _, cw, hs, vs, align, focus, cells = node
@@ -450,6 +479,7 @@ def observe(case, want_moves=True):
     subj = Subject(case)
     size = subj.size
     res = {}
+    gfresh = subj.gcursor()          # asked before the tree has ever been rendered
     try:
         canv, rlog = subj.render(True)
     except Exception as e:  # noqa: BLE001
@@ -483,7 +513,9 @@ def observe(case, want_moves=True):
         (sz, foc) = calls[0]
         wcols, wrows = x1 - x0 + 1, y1 - y0 + 1
         need_rows = w.nrows(sz)
-        if n != wcols * wrows or wcols != sz[0] or wrows != need_rows or sz[0] < w.minw or wrows < 1:
+        if getattr(w, "real", False):      # a real widget: its marker text starts text_off columns right of its corner
+            x0, wcols, wrows = x0 - w.text_off, sz[0], need_rows
+        elif n != wcols * wrows or wcols != sz[0] or wrows != need_rows or sz[0] < w.minw or wrows < 1:
             fits = False
         leaves.append([lid, x0, y0, wcols, wrows, 1 if foc else 0, sz[0], sz[1] if len(sz) > 1 else -1])
     res["leaves"] = leaves
@@ -491,10 +523,15 @@ def observe(case, want_moves=True):
     res["hascur"] = hasattr(subj.w, "get_cursor_coords")
     res["hasmove"] = hasattr(subj.w, "move_cursor_to_coords")
     res["gcursor"] = subj.gcursor()
+    res["gcursor_fresh"] = gfresh
     # ---- a button-1 press on every cell of the rendered area ----
     mouse = []
+    fresh = has_real(case["tree"])          # real widgets keep state (edit position, check box state): rebuild per event
     for y in range(canv.rows()):
         for x in range(canv.cols()):
+            if fresh:
+                subj = Subject(case)
+                subj.render(True)            # events follow a rendering at this size
             del subj.ctx.log[:]
             try:
                 subj.w.mouse_event(size, "mouse press", 1, x, y, True)
@@ -508,20 +545,25 @@ def observe(case, want_moves=True):
             subj.restore_focus()
     res["mouse"] = mouse
     # ---- cursor moves, each on a fresh tree ----
-    moves = []
+    moves, leaf_results = [], []
     if want_moves:
         for col, row in case.get("moves", []):
             s2 = Subject(case)
+            if fresh:
+                s2.render(True)
             if not hasattr(s2.w, "move_cursor_to_coords"):
                 moves.append("noattr")
+                leaf_results.append([])
                 continue
             del s2.ctx.log[:]
             try:
                 r = s2.w.move_cursor_to_coords(size, col, row)
             except Exception as e:  # noqa: BLE001
                 moves.append(err(e))
+                leaf_results.append([])
                 continue
             calls = [[e[1], e[3], e[4], e[2][0], e[2][1] if len(e[2]) > 1 else -1] for e in s2.ctx.log if e[0] == "move"]
+            leaf_results.append([[e[1], 1 if e[5] else 0] for e in s2.ctx.log if e[0] == "move"])
             g = s2.gcursor()
             try:
                 c2, _ = s2.render(True)
@@ -530,6 +572,8 @@ def observe(case, want_moves=True):
                 rc2 = err(e)
             moves.append([1 if r else 0, calls, g, rc2])
     res["moves"] = moves
+    if fresh:
+        res["move_leaf_results"] = leaf_results      # what the (real) leaf itself answered
     return res
 
 
@@ -564,16 +608,16 @@ class Gen:
         return ["leaf", self.nid(), 1 if box else 0, h, 1 if sel else 0, 1 if api else 0, cur, rej, minw, wrap]
 
     def real_leaf(self):
+        """["edit", id, nchars, edit_pos] | ["icon", id, nchars, cursor_pos] | ["button", id, nchars] | ["checkbox", id, nchars]
+        (the text / label is the leaf's marker repeated nchars times)"""
         r = self.rng
         k = r.choice(["edit", "edit", "icon", "button", "checkbox"])
+        n = r.choice([1, 2, 3, 5, 9])
         if k == "edit":
-            text = r.choice(["", "ab", "hello", "one two", "a\nbc", "wide line of text"])
-            ml = 1 if "\n" in text else r.choice([0, 1])
-            return ["edit", self.nid(), r.choice(["", "", "> "]), text, r.randrange(len(text) + 1), ml]
+            return ["edit", self.nid(), n, r.randrange(n + 1)]
         if k == "icon":
-            text = r.choice(["x", "icon", "two words"])
-            return ["icon", self.nid(), text, r.randrange(len(text) + 2)]
-        return [k, self.nid(), r.choice(["ok", "b", "label"])]
+            return ["icon", self.nid(), n, r.randrange(n + 2)]
+        return [k, self.nid(), n]
 
     def align(self):
         r = self.rng
@@ -694,7 +738,7 @@ def estimate(node, cols=None):
     if k == "fill":
         return 1, 1
     if k in REAL_LEAVES:
-        return 6, 2
+        return node[2] + {"edit": 1, "icon": 0, "button": 4, "checkbox": 4}[k], 1
     cs = [estimate(c) for c in children(node)]
     if k == "pile":
         return max(c for c, _ in cs), sum(max(r, o[1] if o[0] == "given" else 1) for (c, r), (o, _) in zip(cs, node[2]))
@@ -798,10 +842,10 @@ def has_real(tree):
 
 
 def leaf_nodes(tree):
-    return {n[1]: n for n in walk(tree) if n[0] == "leaf"}
+    return {n[1]: n for n in walk(tree) if n[0] == "leaf" or n[0] in REAL_LEAVES}
 
 
-NO_MOVE_PROTOCOL = {"frame", "overlay"}     # these classes define no move_cursor_to_coords
+NO_MOVE_PROTOCOL = {"frame", "overlay", "listbox"}     # these classes define no move_cursor_to_coords
 
 
 def judge(case, res):
@@ -819,7 +863,8 @@ def judge(case, res):
         return msgs, obs
     tree = case["tree"]
     lnodes = leaf_nodes(tree)
-    root = tree[0] + ((" height=" + tree[6][0]) if tree[0] == "overlay" else "")
+    root = tree[0] + ((" height=" + tree[6][0]) if tree[0] == "overlay" else "") \
+        + (" +gridflow" if any(n[0] == "gridflow" for n in walk(tree)) else "")
 
     class Tagged(list):
         def append(self, m):
@@ -837,6 +882,12 @@ def judge(case, res):
         msgs.append(f"get_cursor_coords reports {g} but the focused rendering has its cursor at {r}")
     else:
         note("cursor-agree:" + ("some" if g else "none"))
+    gf = res.get("gcursor_fresh", g)
+    if gf != g and not isinstance(g, str):
+        if isinstance(gf, str):
+            msgs.append(f"get_cursor_coords on the never-rendered tree raised {gf[4:]}; the focused rendering has cursor {r}")
+        else:
+            msgs.append(f"get_cursor_coords on the never-rendered tree reports {gf} but the focused rendering has its cursor at {r}")
     # --- clause 2: a press on a cell where a leaf is drawn reaches exactly that leaf, relative coordinates ---
     cols = res["cols"]
     for n, got in enumerate(res["mouse"]):
@@ -865,7 +916,7 @@ def judge(case, res):
             if got[4:6] != rect[i][6:8]:
                 note("cell:hit-size-differs-from-render-size")
     # --- clause 3: move_cursor_to_coords ---
-    for (col, row), mv in zip(case.get("moves", []), res["moves"]):
+    for nmv, ((col, row), mv) in enumerate(zip(case.get("moves", []), res["moves"])):
         if mv == "noattr":
             note("move:no-method")
             continue
@@ -878,7 +929,11 @@ def judge(case, res):
             continue
         node = lnodes[i]
         path = path_to_leaf(tree, i) or ()
-        if any(k in NO_MOVE_PROTOCOL for k in path) or not node[5] or not node[4]:
+        if node[0] == "leaf":
+            has_protocol = bool(node[5] and node[4])
+        else:
+            has_protocol = node[0] == "edit"            # SelectableIcon / Button / CheckBox have no move_cursor_to_coords of their own
+        if any(k in NO_MOVE_PROTOCOL for k in path) or not has_protocol:
             note("move:chain-without-protocol")
             continue
         _, x0, y0 = rect[i][:3]
@@ -886,8 +941,15 @@ def judge(case, res):
             msgs.append(f"move_cursor_to_coords({col},{row}) raised {mv[4:]}")
             continue
         ok, calls, g2, _rc2 = mv
-        accept = (row - y0) not in node[7]
         asked = [c for c in calls if c[0] == i]
+        if node[0] == "leaf":
+            accept = (row - y0) not in node[7]
+        else:                                            # a real Edit: what it answered itself
+            answers = [a for lid, a in res.get("move_leaf_results", [[]] * (nmv + 1))[nmv] if lid == i]
+            if not answers:
+                msgs.append(f"move_cursor_to_coords({col},{row}): leaf {i} drawn at ({x0},{y0}) was not asked")
+                continue
+            accept = bool(answers[-1])
         if not any(c[1:3] == [col - x0, row - y0] for c in asked):
             msgs.append(f"move_cursor_to_coords({col},{row}): leaf {i} drawn at ({x0},{y0}) was asked about "
                         f"{[c[1:3] for c in asked]}, not about the translated cell ({col - x0},{row - y0})")
@@ -1032,12 +1094,17 @@ def simpler_nodes(node, mode):
             for i in range(len(items)):
                 rest = items[:i] + items[i + 1:]
                 yield ["listbox", min(node[1], len(rest) - 1), rest]
-    elif k == "edit":
-        if node[3]:
-            yield ["edit", node[1], node[2], node[3][:-1], min(node[4], len(node[3]) - 1), node[5]]
-        if node[2]:
-            yield ["edit", node[1], "", node[3], node[4], node[5]]
-
+    elif k in REAL_LEAVES:
+        if node[2] > 1:
+            n2 = list(node)
+            n2[2] = node[2] - 1
+            if k in ("edit", "icon"):
+                n2[3] = min(node[3], n2[2])
+            yield n2
+        if k in ("edit", "icon") and node[3] != 0:
+            n2 = list(node)
+            n2[3] = 0
+            yield n2
 
 class C09(core.Check):
     pid = "C09"
@@ -1047,6 +1114,54 @@ class C09(core.Check):
     extract_v = "Extract/C09X.v"
     allowed_axioms = set()
     design_ref = "DESIGN.md section 5, C09"
+    technique = ("Coq theorems (one local lemma group per container, generic composition lemmas, structural induction over "
+                 "the widget tree) about an executable model in which every container's render / get_cursor_coords / "
+                 "mouse_event / move_cursor_to_coords is written from its own code path; the padding / filler arithmetic "
+                 "is re-translated from the source on every run (py2v); extracted-model correspondence on trees of spy "
+                 "leaves; an oracle that reads the drawn leaf of every cell from the canvas")
+    level_text = ("Proved in Coq for every tree built from Leaf (data-described Edit-like or inert leaf), Pile, Columns "
+                  "(given / weight), Padding (given / relative), Filler (pack / given / relative), Frame, BoxAdapter, "
+                  "AttrMap, LineBox (as the Pile/Columns composition it is) and every size at which the tree fits (no "
+                  "child hidden or clipped), no bound on depth or size: (1) cursor_agree: get_cursor_coords = cursor of "
+                  "the focused rendering as placed by render (trees without Overlay); (2) mouse_hits_drawn_child + "
+                  "mouse_to_no_other_child (one level, every class) and mouse_reaches_drawn_leaf (whole tree): a press "
+                  "on any cell of a drawn child / leaf rectangle is routed to exactly that child / leaf with "
+                  "coordinates relative to its top-left corner and the size render gave it (Overlay: proved when the "
+                  "top widget is a box widget); (3) move_cursor_iff_child: move_cursor_to_coords succeeds exactly when "
+                  "the child drawn at the cell accepts the translated cell.  PARTIAL: cursor_on_requested_row is proved "
+                  "for moves that leave the focus of every Columns on the way unchanged (Pile focus may change); the "
+                  "case of a Columns whose focus moves is decided by correspondence + oracle.  REFUTED (witnesses "
+                  "replayed on the implementation, known findings): Overlay.get_cursor_coords raises TypeError / "
+                  "ValueError; Overlay hit-testing of a flow top widget (height='pack') uses rows at the overlay's "
+                  "full width.  Correspondence/oracle only: real Edit / SelectableIcon / Button / CheckBox leaves, "
+                  "GridFlow, ListBox (no model), get_pref_col, 'pack' columns, fixed widgets, Padding 'pack'/'clip'. "
+                  "Overlay pop-ups (PopUpLauncher/PopUpTarget) are not covered.")
+    level_note = ("Trusted: Coq kernel, py2v translator, ExtrOcamlBasic extraction + OCaml driver, the hand-written "
+                  "mirror of each method and of Pile.get_rows_sizes / get_item_rows, Columns.column_widths / "
+                  "get_column_sizes, Frame.frame_top_bottom in Model/Geometry.v (validated by an exact "
+                  "correspondence on every generated tree, not proved against Python), the Python oracle and the "
+                  "Python-side 'fits' walk.  Assumes rows() independent of focus, canvas rows = rows() (C01), "
+                  "children supporting the mode their container asks of them (checked per case against sizing()).")
+    rule = ("cases = (tree, size, cursor-move requests): random well-formed trees (depth <= 4, <= 10 spy leaves, every "
+            "option of every container) at the smallest sizes at which nothing is clipped plus small slack; for every "
+            "cell of the rendered area one button-1 press; 4-6 move_cursor_to_coords requests biased to leaf cells; "
+            "extra Overlay-with-wrapping-top cases; trees with real urwid leaves, GridFlow, ListBox (oracle only); "
+            "non-trivial = fits and at least one leaf drawn; distinct by hash of (case, outcome)")
+    trusted_base = [
+        "Coq 8.16.1 kernel (coqc; vm_compute used only for closed examples and refutation witnesses)",
+        "tools/py2v translator (int_scale, calculate_left_right_padding, calculate_top_bottom_filler regenerated every run)",
+        "extraction: ExtrOcamlBasic only; Z/positive stay Coq datatypes; OCaml 4.13.1; tools/driver/driver.ml",
+        "hand-written mirror of the geometry methods and size helpers in Model/Geometry.v (validated by this correspondence)",
+        "Python oracle, spy leaves and the implementation-side 'fits' walk in harness/props/c09.py",
+    ]
+    assumptions = [
+        "rows() of every widget is independent of its focus argument; a widget's canvas has rows() rows (C01)",
+        "every child supports the mode (flow / box) its container asks of it (checked against sizing() for every case)",
+        "integer columns for move_cursor_to_coords ('left' / 'right' are not modelled); button-1 press events",
+        "leaf contract: a leaf's get_cursor_coords equals the cursor of its own focused rendering; a cursor implies selectable + cursor API",
+        "the bottom widget of an Overlay is background: it never receives mouse events (by design of Overlay.mouse_event)",
+        "mouse events and cursor moves follow a rendering at the same size; get_cursor_coords is additionally asked on the never-rendered tree",
+    ]
 
     # ---------- implementation ----------
     def run_impl(self, case):
@@ -1084,10 +1199,12 @@ class C09(core.Check):
             res["rcursor"] = oxy()
             g = cres()
             res["gcursor"] = g if res["hascur"] else "noattr"
+            res["gcursor_fresh"] = res["gcursor"]
             res["leaves"] = sorted([nx() for _ in range(8)] for _ in range(nx()))
             mouse = []
             for _ in range(nx()):
-                mouse.append([nx() for _ in range(6)] if nx() else 0)
+                t = nx()
+                mouse.append([nx() for _ in range(6)] if t == 1 else ("EXC:AttributeError" if t == 2 else 0))
             res["mouse"] = mouse
             moves = []
             for _ in range(nx()):
@@ -1168,11 +1285,39 @@ class C09(core.Check):
         return None
 
     def cases(self, rng, tier):
+        # spy-leaf trees: compared with the extracted model and judged by the oracle
         n = 1500 if tier == "quick" else 12000
         for i in range(n):
             c = self.random_case(rng, rng.choice([1, 2, 2, 3, 3, 4]))
             if c is not None:
                 yield c
+        # the Overlay corner where hit-testing and drawing use different widths (flow top widget that wraps)
+        for i in range(40 if tier == "quick" else 400):
+            c = self.overlay_case(rng)
+            if c is not None:
+                yield c
+        # trees with real Edit / SelectableIcon / Button / CheckBox leaves, GridFlow and ListBox: oracle only
+        for i in range(120 if tier == "quick" else 1500):
+            c = self.random_case(rng, rng.choice([1, 2, 2, 3]), real=True, nmoves=4)
+            if c is not None:
+                yield c
+
+    def overlay_case(self, rng):
+        g = Gen(rng)
+        leaf = g.leaf(False)
+        leaf[9] = rng.choice([2, 3, 4, 5])                    # wraps below this width
+        width = rng.choice([1, 2, 3, 4])
+        top = leaf if rng.random() < 0.6 else ["pile", 0, [[["pack"], leaf]]]
+        tree = ["overlay", top, ["fill"], g.align(), ["given", width], g.valign(), ["pack"], None, None,
+                rng.choice([0, 0, 1]), rng.choice([0, 0, 1]), rng.choice([0, 0, 1]), rng.choice([0, 0, 1])]
+        if rng.random() < 0.4:
+            tree = ["frame", tree, g.flow(0) if rng.random() < 0.5 else None, None, "body"]
+        got = self.sized(rng, tree, True)
+        if got is None:
+            return None
+        case, res = got
+        self.add_moves(rng, case, res, 2)
+        return case
 
     def shrink_candidates(self, case):
         tree, size, moves = case["tree"], list(case["size"]), case["moves"]
